@@ -860,16 +860,30 @@ def _c03_child_case(rng, i, kinds):
         attrs[0] = trait_attr(tnames[0], 'A', ' as {}' if not named else '', 'Er', '..Default::default()')
     rng.shuffle(attrs)
     fields = []
+    # a quarter of the cases spell the paths through a repeat(child) run: the opening field's #[child] is inherited by the fields that
+    # follow; a field of another node keeps its own #[child] (own instructions take precedence), a plain field opts out with skip_repeat
+    rep_path = None
+    use_repeat = rng.random() < 0.25 and any(path is not None for _, path, _ in flat)
     for (fname, path, ren) in flat:
         fa = []
-        if path is not None:
+        marks = []
+        if use_repeat:
+            if rep_path is None and path is not None:
+                rep_path = path
+                marks.append(Attr('repeat', 'child'))
+                fa.append(Attr('child', '.'.join(path)))
+            elif rep_path is not None and path is None:
+                marks.append(Attr('skip_repeat'))
+            elif rep_path is not None and (path != rep_path or rng.random() < 0.2):
+                fa.append(Attr('child', '.'.join(path)))
+        elif path is not None:
             fa.append(Attr('child', '.'.join(path)))
         if ren:
             fa.append(Attr('map', ren))
         rng.shuffle(fa)
-        fields.append(Field(fname if named else None, 'i32', fa))
+        fields.append(Field(fname if named else None, 'i32', marks + fa))
     it = Item('struct', 'S', 'named' if named else 'tuple', '', attrs, fields,
-              {'gen': 'c03_child', 'tree': [('.'.join(p), t.ty) for p, t in _walk(nodes)],
+              {'gen': 'c03_child', 'repeat': use_repeat, 'tree': [('.'.join(p), t.ty) for p, t in _walk(nodes)],
                'flat': [(fname if named else str(j), '.'.join(path) if path else None, ren) for j, (fname, path, ren) in enumerate(flat)]})
     return it
 
@@ -1102,7 +1116,8 @@ def c05_variant_item(forms):
 def c06_cases(rng, n):
     out = []
     for i in range(n):
-        cps = rng.sample(['A', 'B', 'C', 'x::D', 'G<u8>'], rng.choice([2, 2, 3]))
+        # counterparts are identified by their full spelling: the pool holds twins that differ in the module path / the generic argument only
+        cps = rng.sample(['A', 'B', 'C', 'x::D', 'G<u8>', 'y::D', 'x::A', 'G<u16>', 'x::G<u8>'], rng.choice([2, 2, 3]))
         def ded():
             r = rng.random()
             return None if r < 0.35 else rng.choice(cps)
@@ -1524,6 +1539,18 @@ def c15_injectors():
         it.attrs.insert(rng.randrange(len(it.attrs) + 1), trait_attr(a.name, a.cp, (' ' + a.hint) if a.hint else '', a.err or 'Er'))
         return it, r'Ident here must be unique\.'
 
+    @add(2)
+    def overlapping_duplicate_instruction(it, rng):
+        """same counterpart, same fallibility, a different spelling whose conversion kinds overlap (map + from, into + owned_into)"""
+        a = rng.choice(_trait_attrs(it))
+        ka = set(kinds_of(a.name))
+        names = [n for n in TRAIT_NAMES if n != a.name and is_fallible(n) == is_fallible(a.name)
+                 and set(kinds_of(n)) & ka and set(kinds_of(n)) != ka and not (it.kind == 'enum' and 'existing' in n)]
+        if not names:
+            return None
+        it.attrs.insert(rng.randrange(len(it.attrs) + 1), trait_attr(rng.choice(names), a.cp, (' ' + a.hint) if a.hint else '', a.err or 'Er'))
+        return it, r'Ident here must be unique\.'
+
     @add(3)
     def missing_error_type(it, rng):
         fs = [a for a in _trait_attrs(it) if is_fallible(a.name)]
@@ -1715,7 +1742,8 @@ def c15_injectors():
 
     @add(9)
     def tuple_variant_to_named_without_names(it, rng):
-        vs = [m for m in it.members if isinstance(m, Variant) and m.shape == 'tuple']
+        # (a default type_hint already on the variant would win over the injected one: not a misuse then)
+        vs = [m for m in it.members if isinstance(m, Variant) and m.shape == 'tuple' and not any(a.name == 'type_hint' for a in m.attrs if isinstance(a, Attr))]
         if not vs:
             return None
         rng.choice(vs).attrs.append(Attr('type_hint', 'as {}'))
@@ -1990,6 +2018,39 @@ def c07_cases(rng, n):
     return out
 
 
+def c07_parent_cases(rng, n):
+    """named structs flattening bare #[parent] fields whose own conversion may write a destination field the outer struct also maps
+    (renames onto shared names, ghosts) - the order of own assignments and parent conversions is then observable"""
+    out = []
+    shared = ['rev', 'id', 'name']
+    for i in range(n):
+        names = rng.choice([['into', 'into_existing', 'try_into', 'try_into_existing'], ['into_existing', 'try_into_existing'],
+                            ['owned_into', 'owned_into_existing', 'owned_try_into_existing'], ['ref_into', 'ref_try_into', 'ref_try_into_existing', 'ref_into_existing'],
+                            ['map', 'into_existing', 'try_map', 'try_into_existing']])
+        params = rng.choice(['', '', 'vars(k: { 1 })'])
+        attrs = [trait_attr(nm, 'A', '', 'Er', params) for nm in names]
+        fields = []
+        nf = rng.randrange(2, 6)
+        parents = set(rng.sample(range(nf), rng.choice([1, 1, 2])))
+        for j in range(nf):
+            if j in parents:
+                fields.append(Field('p%d' % j, 'P%d' % j, [Attr('parent')]))
+                continue
+            r = rng.random()
+            fa = []
+            if r < 0.4:
+                fa.append(mattr('map', member=rng.choice(shared)))
+            elif r < 0.55:
+                fa.append(mattr('map', member=rng.choice(shared), expr=rng.choice(C01_EXPRS), braced=rng.random() < 0.5))
+            elif r < 0.65:
+                fa.append(gattr('ghost', default='0'))
+            fields.append(Field(rng.choice(shared) if r >= 0.65 and rng.random() < 0.5 and not any(f.name in shared for f in fields) else 'a%d' % j, 'i32', fa))
+        if rng.random() < 0.3:
+            attrs.append(Attr('ghosts', '%s: { 7 }' % rng.choice(shared)))
+        out.append(Item('struct', 'S', 'named', '', attrs, fields, {'gen': 'c07_parent'}))
+    return out
+
+
 def c04_repeat_items(rng, n):
     """trait instructions of one name under repeat(..) blocks, each declaring its own counterpart and error type"""
     out = []
@@ -2117,6 +2178,7 @@ def c02_cases(rng, n):
                 spec['hint'] = rng.choice(['as {}', 'as ()', 'as Unit'])
                 va.append(Attr('type_hint', spec['hint']))
             fs = []
+            use_perm = False
             if sh != 'unit':
                 nfl = rng.randrange(1, 4)
                 perm = list(range(nfl))
@@ -2143,10 +2205,33 @@ def c02_cases(rng, n):
                     elif r2 < 0.33:
                         fa.append(gattr('ghost', default='0'))
                     fs.append(Field(('x%d' % q) if sh == 'named' else None, 'i32', fa))
+            # ghost payload fields of the counterpart variant: default and dedicated #[ghosts] instructions, in either order
+            spec['vghosts'] = []
+            cshape = {'as {}': 'named', 'as ()': 'tuple', 'as Unit': 'unit'}.get(spec['hint'], sh)
+            if (sh != 'unit' and cshape == sh and spec['ghost'] is None and not any(a.name == 'ghost' for a in va)
+                    and not use_perm and not any(a.name in GHOSTS for f in fs for a in f.attrs) and rng.random() < 0.3):
+                entry = 'gs' if sh == 'named' else str(len(fs))
+                deds = rng.choice([[None], [rng.choice(cps)], [None, rng.choice(cps)], [rng.choice(cps), None], [None, cps[-1]]])
+                for k, d in enumerate(deds):
+                    gname = rng.choice(['ghosts', 'ghosts', 'ghosts', 'ghosts_owned', 'ghosts_ref'])
+                    dflt_ = 'gd%d%s()' % (j, 'abc'[k])
+                    va.append(Attr(gname, '%s: { %s }' % (entry, dflt_), ded=d))
+                    spec['vghosts'].append((gname, d, entry, dflt_))
             v = Variant('V%d' % j, sh, fs, va)
             v.spec = spec
             vs.append(v)
-        it = Item('enum', 'E', 'named', '', attrs, vs, {'gen': 'c02'})
+        # ghost variants of the counterpart: enum-level #[ghosts], default and dedicated, in either order
+        eghosts = []
+        if rng.random() < 0.3:
+            deds = rng.choice([[None], [rng.choice(cps)], [None, rng.choice(cps)], [rng.choice(cps), None], [None, cps[-1]]])
+            for k, d in enumerate(deds):
+                gname = rng.choice(['ghosts', 'ghosts', 'ghosts', 'ghosts_owned', 'ghosts_ref'])
+                ents = [('G0', 'G0', 'eg%s()' % 'abc'[k])]
+                if rng.random() < 0.4:
+                    ents.append(('G1', 'G1(x)', 'mk%s(x)' % 'abc'[k]))
+                attrs.append(Attr(gname, ', '.join('%s: { %s }' % (pt, df) for _, pt, df in ents), ded=d))
+                eghosts.append((gname, d, ents))
+        it = Item('enum', 'E', 'named', '', attrs, vs, {'gen': 'c02', 'eghosts': eghosts})
         out.append(it)
     return out
 
